@@ -3,6 +3,7 @@ package main
 import (
 	"encoding/json"
 	"fmt"
+	"math/rand"
 	"os"
 	"path/filepath"
 	"regexp"
@@ -333,6 +334,41 @@ func (lr *lbRun) finish(res *lbResult, level string, extra map[string]interface{
 		fmt.Printf("VIOLATION property=%s replay=%s\n", prop, dir)
 		fmt.Printf("  conv=%s kind=%s at=%s: %s\n  input: %s\n  native replay: %s\n", f.Conv, f.Kind, f.Path, f.Note, f.Input, status)
 	}
+	// translator validation: passing paths of a seeded sample of programs are re-run natively and the
+	// real result is compared with the engine's
+	tvOK, tvBad := 0, 0
+	if violations == 0 && os.Getenv("VERIF_NO_TV") == "" && res.Driver != nil {
+		var cands []*layerb.ConvReport
+		for _, r := range res.Reports {
+			if r.PassReplay != nil && r.Skipped == "" {
+				cands = append(cands, r)
+			}
+		}
+		rng := rand.New(rand.NewSource(opt.Seed))
+		rng.Shuffle(len(cands), func(i, j int) { cands[i], cands[j] = cands[j], cands[i] })
+		max := 6
+		if opt.Thorough() {
+			max = 20
+		}
+		for i, r := range cands {
+			if i >= max {
+				break
+			}
+			f := layerb.Finding{Conv: r.Conv.ID, Kind: "pass", Replay: r.PassReplay}
+			dir := filepath.Join(replayDir, fmt.Sprintf("tv%02d", i))
+			status, _ := res.Driver.Replay(&f, dir)
+			switch {
+			case status == "reproduced":
+				tvOK++
+				os.RemoveAll(dir)
+			case strings.HasPrefix(status, "unsupported"):
+				os.RemoveAll(dir)
+			default:
+				tvBad++
+				fmt.Printf("TOOL-ERROR: translator validation failed for %s: the compiled code does not produce the result the engine computed on a passing path, see %s\n", r.Conv.ID, dir)
+			}
+		}
+	}
 	for _, s := range skipped {
 		fmt.Println("SKIPPED:", s)
 	}
@@ -354,6 +390,8 @@ func (lr *lbRun) finish(res *lbResult, level string, extra map[string]interface{
 		"native_replays":        replayed,
 		"native_replays_reproduced": reproduced,
 		"spurious_counterexamples":  spurious,
+		"traces_validated_against_impl": tvOK,
+		"translator_validation_failures": tvBad,
 		"samples":               samples,
 		"evaluations":           paths,
 		"distinct_nontrivial":   distinct,
@@ -389,7 +427,7 @@ func (lr *lbRun) finish(res *lbResult, level string, extra map[string]interface{
 	if violations > 0 {
 		return 1
 	}
-	if spurious > 0 {
+	if spurious > 0 || tvBad > 0 {
 		return 2
 	}
 	return 0
